@@ -499,6 +499,8 @@ def oracle_c16(line, m, impl, model):
     c = parse_dcase(line)
     s = c["s"]
     src_lines = s.split(b"\n")
+    r0 = ref_of(c)
+    dom = (not r0.abstain) and in_list_domain(c, r0)     # line / column expectations only in the C15 space
     for js, pr, mk in (("list_json", "list_pretty", "markers"), ("lista_json", "lista_pretty", "markers_all")):
         try:
             items = parse_json_items(impl[js])
@@ -522,7 +524,7 @@ def oracle_c16(line, m, impl, model):
                 pb = pb[:-1]
             if pb != blk:
                 return f"JSON code block of item {idx} differs from the pretty form without colours"
-            if m.get("mutated") or m.get("stream") == "exhaustive" or idx >= len(marks):
+            if m.get("mutated") or m.get("stream") == "exhaustive" or idx >= len(marks) or not dom:
                 continue
             a, b = marks[idx][0], marks[idx][1]
             if s[a:a + 1] == b"\n" or s[b - 1:b] == b"\n" or b"\r" in s:
@@ -917,6 +919,12 @@ def gen_c13(rng, tier):
         unit = rng.choice(["  ", "    ", "\t", " \t", "\t ", "\t \t"])
         first = rng.random() < 0.15
         lines, expect = block_doc(rng, ds, de, cfg, unit, first)
+        if not first and rng.random() < 0.3:
+            # nest everything in a pending parent whose tag lines survive as ordinary non-blank lines
+            o = rng.choice(["", unit]) + ds + "tl " + G.FUTURE + de
+            c = rng.choice(["", unit]) + ds + "/tl" + de
+            lines = [o] + lines + [c]
+            expect = [o] + expect + [c]
         final_nl = rng.random() < 0.5
         src = "\n".join(lines) + ("\n" if final_nl else "")
         cid = f"b{i}"
@@ -1202,6 +1210,15 @@ def gen_c19(rng, tier):
     cases, meta = [], {}
     n = 1200 if tier == "quick" else 15000
     times = [("2000-01-01 00:00:00", 946684800), ("2005-01-01 00:00:00", 1104537600), ("2010-01-01 00:00:00", 1262304000), ("2015-01-01 00:00:00", 1420070400)]
+    # recorded witnesses (run first): an inline removal at the end of a line inside an unwrap-block
+    wit = [("<<", ">>", '<<rm unwrap-block name="x">>\nif (}) {\n  a_b << tl to="2000-01-01 00:00:00">>あいう<< /tl >>\n}\n<</rm>>\n',
+            [(946684801, []), (1420070401, ["x"])]),
+           ("[", "]", '\t[tl unwrap-block to="2010-01-01 00:00:00"]\n\tif (r) {\n\t\treturn [tl to="2005-01-01 00:00:00"]}[/tl]\n\t}\n\t[/tl]\n\tfoo\n',
+            [(946684800, []), (1104537600, []), (1262390400, ["x"])])]
+    for j, (ds, de, s, chain) in enumerate(wit):
+        cid = f"w{j}"
+        cases.append(G.dcase(cid, ds, de, s, G.Cfg("tl", "rm", "+00:00", chain[-1][0], tuple(chain[-1][1]))))
+        meta[cid] = {"stream": "history", "chain": chain, "ds": ds, "de": de}
     for i in range(n):
         ds, de = rng.choice(G.DELIMS)
         cfg = G.Cfg("tl", "rm", "+00:00", G.NOW, ("x",))
